@@ -35,6 +35,8 @@ var c06Programs = []struct{ name, src string }{
 	{"range-over-open-channel", `ch := chan(1); ch <- 1; for _, v := range ch { tick() }`},
 	{"thread-wait", `ch := chan(0); t := spawn(func() { <-ch }); t.wait()`},
 	{"sleep", `sleep(3600)`},
+	// the waited thread sits in host code that does not look at the context
+	{"wait-on-a-thread-stuck-in-a-host-call", `t := spawn(hostblock); t.wait()`},
 }
 
 type c06Run struct {
@@ -57,6 +59,11 @@ func c06Eval(ctx context.Context, label string, src string, ticks *int) (error, 
 		return object.Nil
 	})
 	globals["sleep"] = object.NewBuiltin("sleep", modtime.Sleep)
+	never := make(chan struct{})
+	globals["hostblock"] = object.NewBuiltin("hostblock", func(ctx context.Context, args ...object.Object) object.Object {
+		<-never
+		return object.Nil
+	})
 	names := make([]string, 0, len(globals))
 	for n := range globals {
 		names = append(names, n)
